@@ -168,6 +168,13 @@ def completeness(script, real, base, driver, rng, summary):
         m = sp.model()
         pins, block, desc = [], [], {}
         for t in tasks:
+            if t.optional:
+                sched = z3.is_true(m.eval(t._scheduled, model_completion=True))
+                pins.append(t._scheduled == sched)
+                block.append(t._scheduled != sched)
+                if not sched:
+                    desc[t.name] = "not scheduled"
+                    continue          # the times of an unscheduled task are not part of the schedule
             vs = [t._start, t._end] + ([t._duration] if hasattr(t, "_duration") else [])
             for v in vs:
                 val = m.eval(v, model_completion=True)
@@ -199,7 +206,9 @@ def run_c09(script, rng, summary, driver=None):
         if any(r != "ok" for r in pslib.Real().run(script)):
             count(summary, "run_c09_own_case_rejected")
             return None
-    v = run_c09_case(script, rng, summary, driver)
+    # the completeness probe runs on the dedicated cases only (mandatory tasks, plain constraints): generic scripts
+    # reach regions recorded under other properties (F18, F30, ...)
+    v = run_c09_case(script, rng, summary, driver if own else None)
     if v and own:
         v["script"] = script
     return v
